@@ -97,7 +97,9 @@ type fakeTime struct{}
 
 func (fakeTime) Now() time.Time { return time.Unix(1_700_000_000, 0) }
 
-type fakeContainers struct{ m map[cid.ID]container.Container }
+type fakeContainers struct {
+	m map[cid.ID]container.Container
+}
 
 func (x *fakeContainers) Get(id cid.ID) (container.Container, error) {
 	c, ok := x.m[id]
@@ -109,12 +111,14 @@ func (x *fakeContainers) Get(id cid.ID) (container.Container, error) {
 
 type fakeNetmapper struct{}
 
-func (fakeNetmapper) GetNetMapByEpoch(uint64) (*netmap.NetMap, error) { return nil, errors.New("unused") }
-func (fakeNetmapper) GetEpochBlockByTime(uint32) (uint32, error)      { return 0, errors.New("unused") }
-func (fakeNetmapper) Epoch() (uint64, error)                          { return curEpoch, nil }
-func (fakeNetmapper) NetMap() (*netmap.NetMap, error)                 { return nil, errors.New("unused") }
-func (fakeNetmapper) ServerInContainer(cid.ID) (bool, error)          { return true, nil }
-func (fakeNetmapper) GetEpochBlock(uint64) (uint32, error)            { return 0, errors.New("unused") }
+func (fakeNetmapper) GetNetMapByEpoch(uint64) (*netmap.NetMap, error) {
+	return nil, errors.New("unused")
+}
+func (fakeNetmapper) GetEpochBlockByTime(uint32) (uint32, error) { return 0, errors.New("unused") }
+func (fakeNetmapper) Epoch() (uint64, error)                     { return curEpoch, nil }
+func (fakeNetmapper) NetMap() (*netmap.NetMap, error)            { return nil, errors.New("unused") }
+func (fakeNetmapper) ServerInContainer(cid.ID) (bool, error)     { return true, nil }
+func (fakeNetmapper) GetEpochBlock(uint64) (uint32, error)       { return 0, errors.New("unused") }
 
 type fakeEACLs struct{ m map[cid.ID]eacl.Table }
 
